@@ -6,6 +6,7 @@
 -/
 import NR.Init
 import NR.Proofs.Init
+import NR.Proofs.InitPos
 namespace NR.Props.C03I
 open NR.Init
 
@@ -95,6 +96,28 @@ theorem c03_walk_counterexample :
     (run (exWalk false)).err = false ∧ 0 ∉ finalRoute (exWalk false) ∧ (run (exWalk true)).err = true := by
   decide
 
+/-! ### the stored positions (an observation, not a property violation: C16 allows `NewSolution` to return an error) -/
+
+/-- `newMoveStops` never refuses the positions `addInitialSolution` computes while the stored stop positions are FRESH
+(position `i + 1` for the stop at index `i` of the route, `length + 1` for the vehicle's last stop): for every
+configuration, every set of attached units and every unit with a stop among the initial stops. -/
+theorem init_fresh_positions_never_refuse (c : Cfg) (st : St) (u : Nat)
+    (hfresh : NR.Proofs.InitPos.Fresh st (routeOf c st.att)) (hu : u ∉ st.att) (hl : ∃ s ∈ c.L, c.unitOf s = u) :
+    moveRefused c st u (stopPositions c st.att u) = false :=
+  NR.Proofs.InitPos.fresh_move_not_refused c st u hfresh hu hl
+
+/-- pair {4,3} fixed, stop 3 rejected when stop 0 is in front of it; temporal rules that the repair loop would have settled -/
+def exStale : Cfg :=
+  { L := [1, 4, 0, 2, 3], stops := [0, 1, 2, 3, 4], unitOf := fun s => if s = 3 ∨ s = 4 then 10 else s, rootOf := id,
+    fixedStops := [4, 3], sc := { ntAfter := [(0, 3)], tAfter := [(1, 3), (3, 4)] } }
+
+/-- … and the refusal the code shows with STALE positions: stop 0 is rejected by the exact check (stop 3 behind it is
+violated), the propagation of that check has shifted the stored position of stop 3 and nothing shifts it back; the next
+unit (stop 2) would go between stops 4 and 3, whose stored positions are no longer adjacent — `NewSolution` returns
+"stop positions are not allowed …" although the route 4, 3 was there to be had (corpus/init/stale-positions-…). -/
+theorem init_stale_positions_refuse : (run exStale).err = true ∧ validate exStale = true := by
+  decide
+
 end NR.Props.C03I
 
 #print axioms NR.Props.C03I.c03_initial_units_whole
@@ -107,3 +130,5 @@ end NR.Props.C03I
 #print axioms NR.Props.C03I.c03_e36_counterexample
 #print axioms NR.Props.C03I.c03_e37_counterexample
 #print axioms NR.Props.C03I.c03_walk_counterexample
+#print axioms NR.Props.C03I.init_fresh_positions_never_refuse
+#print axioms NR.Props.C03I.init_stale_positions_refuse
